@@ -83,7 +83,8 @@ def _run_suite(prop, suite, stats):
         if len(i) == 3 and i[0] == 3 and i[2] >= 128:
             # the implementation (inside the harness process) was killed by a signal on this very input: a concrete failing input
             div.append((c, "the process crashed on this case"))
-            hits.append((c, None, "the implementation crashed (signal %d: memory fault / abort) while running this case" % (i[2] - 128)))
+            hits.append((c, None, ("the implementation crashed (killed by signal %d: memory fault / abort) while running this case" % (i[2] - 128)) if i[2] < 1000 else
+                                  ("the harness process died with exit status %d while running this case (101: a panic that no operation-level catch could contain, e.g. in a stream task or a destructor)" % (i[2] - 1000))))
             continue
         if suite.compare and c.coq is not None:
             d = core.first_divergence(c.norm(i) if getattr(c, "norm", None) else i, m)
